@@ -475,7 +475,10 @@ func (m *vfMachine) opWrite() {
 	if h == nil {
 		m.t.Skip("no handle")
 	}
-	n := int(m.pickSize("writeSize", 0))
+	m.doWrite(h, int(m.pickSize("writeSize", 0)))
+}
+
+func (m *vfMachine) doWrite(h *vfHandle, n int) {
 	data := m.pattern(n)
 	if h.wr && !h.node.dir {
 		off := h.off
@@ -521,7 +524,10 @@ func (m *vfMachine) opRead() {
 	if h == nil {
 		m.t.Skip("no handle")
 	}
-	n := int(m.pickSize("readSize", 0))
+	m.doRead(h, int(m.pickSize("readSize", 0)))
+}
+
+func (m *vfMachine) doRead(h *vfHandle, n int) {
 	buf := make([]byte, n)
 	for i := range buf {
 		buf[i] = 0xEE
@@ -538,6 +544,112 @@ func (m *vfMachine) opRead() {
 		return // outcome not fixed by the property
 	}
 	m.checkRead(h, buf, got, err)
+}
+
+func (m *vfMachine) doSeekStart(h *vfHandle, target int64) {
+	pos, err := h.f.Seek(target, io.SeekStart)
+	m.logf("seek #%d off=%d whence=0 -> pos=%d err=%v", h.id, target, pos, err)
+	if err != nil || pos != target {
+		m.fail("Seek(#%d, %d, SeekStart) = %d, %v", h.id, target, pos, err)
+	}
+	h.off = target
+}
+
+// openExisting opens another handle on an existing regular file.
+func (m *vfMachine) openExisting(p string, flag int) *vfHandle {
+	node := m.lookup(p)
+	f, err := m.fs.OpenFile(p, flag, 0644)
+	m.logf("open %q flag=%#x -> err=%v", p, flag, err)
+	if err != nil {
+		m.fail("OpenFile(%q, %#x) of an existing file failed: %v", p, flag, err)
+	}
+	m.nextID++
+	acc := flag & (os.O_RDONLY | os.O_WRONLY | os.O_RDWR)
+	h := &vfHandle{node: node, f: f, rd: acc == os.O_RDONLY || acc == os.O_RDWR, wr: acc == os.O_WRONLY || acc == os.O_RDWR, id: m.nextID}
+	m.handles = append(m.handles, h)
+	m.logf("  -> handle #%d", h.id)
+	return h
+}
+
+// opInterleave: two handles on one file; one reads (so its position is
+// validated), the other writes somewhere inside the file (possibly splitting a
+// stored segment), then the first reads on without seeking. Optionally a
+// flush happens in between, so the write hits a stored segment.
+func (m *vfMachine) opInterleave() {
+	t := m.t
+	_, files := m.walk()
+	var cands []string
+	for _, p := range files {
+		if len(m.lookup(p).data) >= 2 {
+			cands = append(cands, p)
+		}
+	}
+	if len(cands) == 0 {
+		t.Skip("no file with data")
+	}
+	p := rapid.SampledFrom(cands).Draw(t, "ilFile")
+	node := m.lookup(p)
+	var rdr, wtr *vfHandle
+	for _, h := range m.handles {
+		if h.node == node && h.rd && rdr == nil {
+			rdr = h
+		} else if h.node == node && h.wr && !h.app && wtr == nil {
+			wtr = h
+		}
+	}
+	for len(m.handles) >= m.cfg.maxHandles-1 {
+		// make room, but keep the handles we are going to use
+		victim := -1
+		for i, h := range m.handles {
+			if h != rdr && h != wtr {
+				victim = i
+				break
+			}
+		}
+		if victim < 0 {
+			break
+		}
+		m.handles[victim].f.Close()
+		m.logf("close #%d", m.handles[victim].id)
+		m.handles = append(m.handles[:victim], m.handles[victim+1:]...)
+	}
+	if rdr == nil {
+		rdr = m.openExisting(p, os.O_RDONLY)
+	}
+	if wtr == nil {
+		wtr = m.openExisting(p, os.O_RDWR)
+	}
+	m.label("several-handles-on-one-file")
+	m.nontriv = true
+	size := int64(len(node.data))
+	if rapid.Bool().Draw(t, "ilFlushFirst") {
+		dir := ""
+		if i := strings.LastIndex(p, "/"); i >= 0 {
+			dir = p[:i]
+		}
+		err := m.fs.Flush(dir, true)
+		m.logf("flush %q short=true -> %v", dir, err)
+		if m.cfg.settle || rapid.Bool().Draw(t, "ilSettle") {
+			m.settle()
+		}
+	}
+	if rapid.IntRange(0, 2).Draw(t, "ilSeekReader") > 0 {
+		m.doSeekStart(rdr, rapid.Int64Range(0, size-1).Draw(t, "ilReaderPos"))
+	}
+	m.doRead(rdr, rapid.IntRange(1, 3).Draw(t, "ilRead1"))
+	m.doSeekStart(wtr, rapid.Int64Range(0, size-1).Draw(t, "ilWriterPos"))
+	m.doWrite(wtr, rapid.IntRange(1, m.cfg.unit+1).Draw(t, "ilWriteLen"))
+	if rapid.IntRange(0, 3).Draw(t, "ilTruncate") == 0 {
+		n := rapid.Int64Range(0, int64(len(node.data))).Draw(t, "ilTruncTo")
+		if err := wtr.f.Truncate(n); err != nil {
+			m.fail("Truncate(#%d, %d) failed: %v", wtr.id, n, err)
+		}
+		m.logf("truncate #%d -> %d", wtr.id, n)
+		node.data = node.data[:n:n]
+	}
+	m.doRead(rdr, rapid.IntRange(1, 2*m.cfg.unit+1).Draw(t, "ilRead2"))
+	m.doRead(rdr, rapid.IntRange(1, 3).Draw(t, "ilRead3"))
+	m.label("interleaved-read-write-read")
 }
 
 func (m *vfMachine) checkRead(h *vfHandle, buf []byte, got int, err error) {
@@ -1180,22 +1292,24 @@ func vfRunMachine(t *rapid.T, cfg vfCfg) {
 		}
 	}
 	actions := map[string]func(*rapid.T){
-		"open":     wrap(m.opOpen),
-		"open2":    wrap(m.opOpen),
-		"close":    wrap(m.opClose),
-		"write":    wrap(m.opWrite),
-		"write2":   wrap(m.opWrite),
-		"write3":   wrap(m.opWrite),
-		"read":     wrap(m.opRead),
-		"read2":    wrap(m.opRead),
-		"seek":     wrap(m.opSeek),
-		"truncate": wrap(m.opTruncate),
-		"mkdir":    wrap(m.opMkdir),
-		"rename":   wrap(m.opRename),
-		"remove":   wrap(m.opRemove),
-		"flush":    wrap(m.opFlush),
-		"readdir":  wrap(m.opReaddirPaged),
-		"save":     wrap(func() { m.opSave(false) }),
+		"open":        wrap(m.opOpen),
+		"open2":       wrap(m.opOpen),
+		"close":       wrap(m.opClose),
+		"write":       wrap(m.opWrite),
+		"write2":      wrap(m.opWrite),
+		"write3":      wrap(m.opWrite),
+		"read":        wrap(m.opRead),
+		"read2":       wrap(m.opRead),
+		"seek":        wrap(m.opSeek),
+		"truncate":    wrap(m.opTruncate),
+		"mkdir":       wrap(m.opMkdir),
+		"rename":      wrap(m.opRename),
+		"remove":      wrap(m.opRemove),
+		"flush":       wrap(m.opFlush),
+		"interleave":  wrap(m.opInterleave),
+		"interleave2": wrap(m.opInterleave),
+		"readdir":     wrap(m.opReaddirPaged),
+		"save":        wrap(func() { m.opSave(false) }),
 	}
 	t.Repeat(actions)
 	m.t = t
